@@ -309,7 +309,7 @@ def _c14_section():
                     errors.append("unique_id(): unrecognised statement %s" % st); continue
                 f, v = a.group(1), norm(a.group(2))
                 okv = {"sequence": ("Sequence::from_height(0)", "Sequence(0)", "Sequence::ZERO"),
-                       "script_sig": ("Script::new()", "Script::default()", "Default::default()")}
+                       "script_sig": ("Script::new()", "crate::Script::new()", "Script::default()", "Default::default()")}
                 if f not in okv or v not in okv[f]:
                     errors.append("unique_id(): unrecognised reset %s" % st); continue
                 cleared.append(f)
